@@ -122,7 +122,16 @@ class NPShim:
     inf = float("inf")
 
     def __getattr__(self, name):
-        return getattr(real_np, name)
+        obj = getattr(real_np, name)
+        if callable(obj) and not isinstance(obj, type):
+            # a numpy function without a model: fine on concrete metadata, but never let a proxy leak into real numpy
+            def guarded(*a, **k):
+                if any(_contains_modelled(x) for x in a) or any(_contains_modelled(x) for x in k.values()):
+                    raise Unsupported(f"np.{name} on symbolic data (no model)")
+                return obj(*a, **k)
+            guarded.__name__ = name
+            return guarded
+        return obj
 
     def full(self, shape, fill, dtype=None):
         shape = _shape(shape)
